@@ -43,6 +43,10 @@ type Case struct {
 	Class []string    `json:"class"` // pkg.Class per file
 	Ops   []Op        `json:"ops"`
 	Fresh bool        `json:"fresh"` // also compute the reference in fresh sub-processes and compare
+	// IdentSubset: the identifier set is computed from the files IdentFrom only (a strict subset,
+	// possibly empty) instead of from all files; it is held fixed all the same
+	IdentSubset bool  `json:"identSubset,omitempty"`
+	IdentFrom   []int `json:"identFrom,omitempty"`
 }
 
 func controller(t *rapid.T, idx int, pkg string) (jgen.File, string) {
@@ -77,6 +81,110 @@ func controller(t *rapid.T, idx int, pkg string) (jgen.File, string) {
 	return jgen.File{Path: dir + "/" + name + ".java", Text: b.String()}, pkg + "." + name
 }
 
+var reusedNames = []string{"repo", "item", "value", "it"}
+
+// enumFile writes a top-level enum: a type of its package like any class, which the identifier
+// pass does not list.
+func enumFile(t *rapid.T, idx int, pkg string) (jgen.File, string, []string) {
+	name := fmt.Sprintf("Level%d", idx)
+	consts := []string{"LOW", "HIGH", "MID"}[:rapid.IntRange(1, 3).Draw(t, "nConsts")]
+	var b strings.Builder
+	fmt.Fprintf(&b, "package %s;\n\n", pkg)
+	rich := rapid.IntRange(0, 2).Draw(t, "enumForm")
+	impl := ""
+	if rapid.IntRange(0, 3).Draw(t, "enumImplements") == 3 {
+		impl = " implements Runnable"
+	}
+	fmt.Fprintf(&b, "public enum %s%s {\n", name, impl)
+	switch rich {
+	case 0: // constants only
+		end := ""
+		if impl != "" {
+			end = ";" // members follow
+		}
+		fmt.Fprintf(&b, "    %s%s\n", strings.Join(consts, ", "), end)
+	case 1: // constants and a method
+		fmt.Fprintf(&b, "    %s;\n\n", strings.Join(consts, ", "))
+		v := rapid.SampledFrom(reusedNames).Draw(t, "enumVar")
+		fmt.Fprintf(&b, "    public boolean above(%s %s) {\n        return %s.ordinal() < ordinal();\n    }\n", name, v, v)
+	default: // constants with arguments, a field, a constructor and an accessor
+		var cs []string
+		for k, c := range consts {
+			cs = append(cs, fmt.Sprintf("%s(%d)", c, k+1))
+		}
+		v := rapid.SampledFrom(reusedNames).Draw(t, "enumVar")
+		fmt.Fprintf(&b, "    %s;\n\n    private final int %s;\n\n    %s(int %s) {\n        this.%s = %s;\n    }\n\n    public int weight() {\n        return %s;\n    }\n", strings.Join(cs, ", "), v, name, v, v, v, v)
+	}
+	if impl != "" {
+		b.WriteString("\n    public void run() {\n        name();\n    }\n")
+	}
+	b.WriteString("}\n")
+	dir := strings.ReplaceAll(pkg, ".", "/")
+	return jgen.File{Path: dir + "/" + name + ".java", Text: b.String()}, pkg + "." + name, consts
+}
+
+// enumUser writes a class that uses the enum: without an import when it lives in the enum's
+// package, with a single-type import otherwise. Its variables carry the reused names.
+func enumUser(t *rapid.T, idx int, pkg, enumPkg, enum string, consts []string) (jgen.File, string) {
+	name := fmt.Sprintf("Uses%d", idx)
+	var b strings.Builder
+	fmt.Fprintf(&b, "package %s;\n\n", pkg)
+	if pkg != enumPkg {
+		fmt.Fprintf(&b, "import %s.%s;\n\n", enumPkg, enum)
+	}
+	fmt.Fprintf(&b, "public class %s {\n", name)
+	field := ""
+	if rapid.IntRange(0, 2).Draw(t, "userField") > 0 {
+		field = rapid.SampledFrom(reusedNames).Draw(t, "userFieldName")
+		init := ""
+		if rapid.Bool().Draw(t, "userFieldInit") {
+			init = " = " + enum + "." + rapid.SampledFrom(consts).Draw(t, "userFieldConst")
+		}
+		fmt.Fprintf(&b, "    private %s %s%s;\n\n", enum, field, init)
+	}
+	other := func(label string, taken ...string) string {
+		var free []string
+		for _, n := range reusedNames {
+			ok := true
+			for _, x := range taken {
+				if x == n {
+					ok = false
+				}
+			}
+			if ok {
+				free = append(free, n)
+			}
+		}
+		return rapid.SampledFrom(free).Draw(t, label)
+	}
+	n := rapid.IntRange(1, 3).Draw(t, "nUserMethods")
+	for k := 0; k < n; k++ {
+		switch rapid.IntRange(0, 3).Draw(t, "userMethod") {
+		case 0: // static call on the enum, call on a local of the enum type
+			pv := other("userParam", field)
+			lv := other("userLocal", field, pv)
+			fmt.Fprintf(&b, "    public String pick%d(String %s) {\n        %s %s = %s.valueOf(%s);\n        %s.ordinal();\n        return %s.name();\n    }\n\n", k, pv, enum, lv, enum, pv, lv, lv)
+		case 1: // parameter of the enum type, switch over it
+			pv := other("userParam", field)
+			fmt.Fprintf(&b, "    void use%d(%s %s) {\n        %s.compareTo(%s.%s);\n        switch (%s) {\n        case %s:\n            %s.name();\n            break;\n        default:\n            break;\n        }\n    }\n\n", k, enum, pv, pv, enum, consts[0], pv, consts[0], pv)
+		case 2: // call on the field, for-each over values()
+			lv := other("userLocal", field)
+			recv := lv
+			if field != "" {
+				recv = field
+			}
+			fmt.Fprintf(&b, "    int count%d() {\n        int n = 0;\n        for (%s %s : %s.values()) {\n            n = n + %s.ordinal();\n        }\n        return n;\n    }\n\n", k, enum, lv, enum, recv)
+		default: // the same names with other types: a decoy for a leaked table
+			pv := other("userParam", field)
+			lv := other("userLocal", field, pv)
+			fmt.Fprintf(&b, "    String plain%d(String %s) {\n        StringBuilder %s = new StringBuilder();\n        %s.append(%s.trim());\n        return %s.toString();\n    }\n\n", k, pv, lv, lv, pv, lv)
+		}
+	}
+	b.WriteString("}\n")
+	dir := strings.ReplaceAll(pkg, ".", "/")
+	return jgen.File{Path: dir + "/" + name + ".java", Text: b.String()}, pkg + "." + name
+}
+
 func gen(t *rapid.T) Case {
 	p := jgen.GenProject(t, jgen.Opts{Bodies: true, NameReuse: true, Interfaces: true, Wide: true, RichDecl: true, MaxUnits: 4, MaxMethods: 3, ExtraImps: rapid.Bool().Draw(t, "extraImps"), DupNames: rapid.Bool().Draw(t, "dupNames")})
 	var c Case
@@ -89,6 +197,25 @@ func gen(t *rapid.T) Case {
 		f, cls := controller(t, k, rapid.SampledFrom([]string{"com.acme", "com.acme.web.api"}).Draw(t, "ctlPkg"))
 		c.Files = append(c.Files, f)
 		c.Class = append(c.Class, cls)
+	}
+	// enums (types the identifier pass does not list) and classes that use them
+	nEnums := rapid.IntRange(0, 2).Draw(t, "nEnums")
+	nUsers := 0
+	for k := 0; k < nEnums; k++ {
+		epkg := rapid.SampledFrom([]string{"com.acme", "com.acme.core", "org.demo"}).Draw(t, "enumPkg")
+		f, cls, consts := enumFile(t, k, epkg)
+		c.Files = append(c.Files, f)
+		c.Class = append(c.Class, cls)
+		for j, nu := 0, rapid.IntRange(0, 2).Draw(t, "nEnumUsers"); j < nu; j++ {
+			upkg := epkg // the plain variant: same package, no import
+			if rapid.IntRange(0, 2).Draw(t, "userOtherPkg") == 2 {
+				upkg = rapid.SampledFrom([]string{"app.client", "com.acme.web.api"}).Draw(t, "userPkg")
+			}
+			uf, ucls := enumUser(t, nUsers, upkg, epkg, cls[len(epkg)+1:], consts)
+			nUsers++
+			c.Files = append(c.Files, uf)
+			c.Class = append(c.Class, ucls)
+		}
 	}
 	if len(c.Files) < 2 {
 		f, cls := controller(t, 9, "com.acme")
@@ -108,6 +235,15 @@ func gen(t *rapid.T) Case {
 		c.Ops = append(c.Ops, op)
 	}
 	c.Fresh = rapid.IntRange(0, 9).Draw(t, "fresh") == 0
+	// the identifier set: computed from all files (plain) or from a strict subset of them; the
+	// files it does not know are analysed all the same, before or after the others
+	if rapid.IntRange(0, 2).Draw(t, "identSubset") == 2 {
+		c.IdentSubset = true
+		perm := rapid.Permutation(all).Draw(t, "identPerm")
+		n := rapid.IntRange(0, len(perm)-1).Draw(t, "identLen")
+		c.IdentFrom = append([]int{}, perm[:n]...)
+		sort.Ints(c.IdentFrom)
+	}
 	return c
 }
 
@@ -248,6 +384,13 @@ func (w *world) run(op Op, tag string) (map[int]string, string) {
 
 
 func check(c Case) pbt.Verdict {
+	for i, f := range c.Files {
+		if base := filepath.Base(f.Path); strings.HasPrefix(base, "Level") || strings.HasPrefix(base, "Uses") {
+			if errs := jgen.SyntaxErrors(f.Text); len(errs) > 0 {
+				return pbt.Verdict{Skip: true, Classes: []string{"rejected_by_parser:" + c.Class[i]}}
+			}
+		}
+	}
 	root := cli.Scratch("c07-")
 	defer os.RemoveAll(root)
 	w := &world{c: c, root: root}
@@ -260,7 +403,15 @@ func check(c Case) pbt.Verdict {
 	resetAll()
 	if p := pbt.Call(func() {
 		iapp := javaapp.NewJavaIdentifierApp()
-		w.ident = iapp.AnalysisPath(w.allDir)
+		if c.IdentSubset {
+			var paths []string
+			for _, i := range c.IdentFrom {
+				paths = append(paths, filepath.Join(w.allDir, filepath.FromSlash(c.Files[i].Path)))
+			}
+			w.ident = iapp.AnalysisFiles(paths)
+		} else {
+			w.ident = iapp.AnalysisPath(w.allDir)
+		}
 	}); p != "" {
 		return pbt.Fail("identifier pass panicked: %s", p)
 	}
@@ -330,7 +481,93 @@ func check(c Case) pbt.Verdict {
 	if hasCtl {
 		v.Classes = append(v.Classes, "has_controller")
 	}
+	v.Classes = append(v.Classes, domainLabels(c)...)
 	return v
+}
+
+// domainLabels describes the widened part of the case (labels only).
+func domainLabels(c Case) []string {
+	set := map[string]bool{}
+	known := map[int]bool{}
+	switch {
+	case !c.IdentSubset:
+		set["ident_from_all_files"] = true
+		for i := range c.Files {
+			known[i] = true
+		}
+	case len(c.IdentFrom) == 0:
+		set["ident_from_no_file"] = true
+	default:
+		set["ident_from_strict_subset"] = true
+		for _, i := range c.IdentFrom {
+			known[i] = true
+		}
+	}
+	pkgOf := func(i int) string { return c.Class[i][:strings.LastIndex(c.Class[i], ".")] }
+	simple := func(i int) string { return c.Class[i][strings.LastIndex(c.Class[i], ".")+1:] }
+	isEnum := func(i int) bool { return strings.HasPrefix(simple(i), "Level") }
+	// does file j mention the type declared by file i (as a word)?
+	mentions := func(j, i int) bool {
+		for _, w := range strings.FieldsFunc(c.Files[j].Text, func(r rune) bool {
+			return !(r == '_' || r == '$' || r >= '0' && r <= '9' || r >= 'a' && r <= 'z' || r >= 'A' && r <= 'Z' || r > 127)
+		}) {
+			if w == simple(i) {
+				return true
+			}
+		}
+		return false
+	}
+	for i := range c.Files {
+		if isEnum(i) {
+			set["has_enum"] = true
+		}
+		if strings.HasPrefix(simple(i), "Uses") {
+			if strings.Contains(c.Files[i].Text, "\nimport ") {
+				set["enum_user_in_other_package_with_import"] = true
+			} else {
+				set["enum_user_in_enum_package_without_import"] = true
+			}
+		}
+	}
+	for _, op := range c.Ops {
+		if op.Pass != "full" {
+			continue
+		}
+		for a, i := range op.List {
+			for b, j := range op.List {
+				if i == j || !mentions(j, i) {
+					continue
+				}
+				// file j refers to the type of file i, which the identifier set does not list
+				if !known[i] || isEnum(i) {
+					where := "after"
+					if a > b {
+						where = "before"
+					}
+					kind := "class_unknown_to_ident"
+					if isEnum(i) {
+						kind = "enum"
+					}
+					rel := "other_package"
+					if pkgOf(i) == pkgOf(j) {
+						rel = "same_package"
+					}
+					set["full_pass_user_"+where+"_declaring_file_of_"+kind+"_"+rel] = true
+				}
+			}
+		}
+		for _, i := range op.List {
+			if !known[i] {
+				set["full_pass_over_file_unknown_to_ident"] = true
+			}
+		}
+	}
+	var out []string
+	for k := range set {
+		out = append(out, k)
+	}
+	sort.Strings(out)
+	return out
 }
 
 func names2(n []string) string { return "(" + strings.Join(n, ",") + ")" }
@@ -526,10 +763,11 @@ func checkGraph(c GraphCase) pbt.Verdict {
 func init() {
 	pbt.SetProperty("C07")
 	jgen.SetExcluded(pbt.Excluded)
-	pbt.Describe("(files) rapid-generated sets of 2-7 Java files: conventional units from jgen with variable names deliberately reused across files and methods with different types (repo, item, value, it), with and without imports/superclass, plus 0-3 Spring controllers with and without a class-level mapping whose parameters reuse the same names; a history of 2-8 operations `run pass P over list L` with P in {identifier, full, bad-smell, API} and L a random permutation of a random sub-list, all in one process with no reset in between; the identifier set and dependency model are computed once and held fixed. Oracle (metamorphic): the canonical per-file slice of every result equals the result for that file analysed alone from a clean state (clean state = reset hooks; for one case in ten additionally a fresh sub-process per file, which must agree). (graphs) rapid-generated call models; call graph / call graph with lookup / reverse call graph / API graph generated 2-4 times in a row after a clean start: all repetitions equal the first as edge multisets (and sizes). Non-trivial = a history with more than one file or more than one operation; a graph with >= 2 edges. Distinct = hash of the case.",
+	pbt.Describe("(files) rapid-generated sets of 2-13 Java files: conventional units from jgen with variable names deliberately reused across files and methods with different types (repo, item, value, it), with and without imports/superclass, plus 0-3 Spring controllers with and without a class-level mapping whose parameters reuse the same names, plus 0-2 top-level enums (constants only, with a method, or with arguments, field, constructor and accessor; a type of its package that the identifier pass does not list) each with 0-2 classes that use it through fields, parameters, locals, static calls, a switch and a for-each over values(), from the enum's own package without an import or from another package with a single-type import; a history of 2-8 operations `run pass P over list L` with P in {identifier, full, bad-smell, API} and L a random permutation of a random sub-list, all in one process with no reset in between; the identifier set and dependency model are computed once and held fixed: the identifier set from all files or (one case in three) from a strict, possibly empty, subset of them, so that the histories also analyse files the identifier set does not know, before or after the files that refer to their types. Oracle (metamorphic): the canonical per-file slice of every result equals the result for that file analysed alone from a clean state (clean state = reset hooks; for one case in ten additionally a fresh sub-process per file, which must agree). (graphs) rapid-generated call models; call graph / call graph with lookup / reverse call graph / API graph generated 2-4 times in a row after a clean start: all repetitions equal the first as edge multisets (and sizes). Non-trivial = a history with more than one file or more than one operation; a graph with >= 2 edges. Distinct = hash of the case.",
 		"graphConnectedCall findings are excluded: they come from a third-party package that accumulates state across calls and they name no file (DESIGN.md section 6 row 22)",
 		"directory-based passes (bad-smell, API) are given a directory holding copies of the listed files; paths are compared relative to that directory",
-		"functions inside a type are compared sorted by line: their order is map order (C08)")
+		"functions inside a type are compared sorted by line: their order is map order (C08)",
+		"the identifier and full passes produce no entry for an enum file, so its slice there is empty in the reference and in every history alike; what such a file is there for is that it must leave the entries of the other files alone")
 	pbt.Register("files", 250, 1000, gen, check)
 	pbt.Register("graphs", 3000, 30000, genGraph, checkGraph)
 }
